@@ -126,12 +126,20 @@ def steps_needed(v, m, auto_split):
     return max(1, math.ceil(F(v) / F(m)))
 
 
+def _layout(a):
+    """every other 2-D argument is handed over in column-major (Fortran) memory layout: same content, same shape -
+    results must not depend on the memory layout of an argument"""
+    if isinstance(a, numpy.ndarray) and a.ndim == 2 and min(a.shape) > 1 and (a.shape[0] + a.shape[1]) % 2 == 0:
+        return numpy.asfortranarray(a)
+    return a
+
+
 def to_arg(a, mode):
     def cv(x):
         return [cv(y) for y in x] if isinstance(x, list) else num(x)
     a = cv(a)
     if mode == "np" and isinstance(a, list):
-        return numpy.array(a)
+        return _layout(numpy.array(a))
     if mode == "tuple" and isinstance(a, list) and not (a and isinstance(a[0], list)):
         return tuple(a)
     return a
